@@ -487,11 +487,11 @@ Lemma proj_weights_shift (lws : list R) : lws <> [] ->
   /\ norm = rseqsum (expw lws) * exp (- wmax) / INR (length lws).
 Proof.
   intro N. unfold proj_weights. cbn [oexp osub omax Rops RopsP].
-  set (M := fold_left Rmax (tl lws) (hd 0 lws)).
+  set (M := fold_left Rmax (tl lws) _).
   assert (E : map (fun l => exp (l - M)) lws = map (fun e => e * exp (- M)) (expw lws)).
   { unfold expw. rewrite map_map. apply map_ext. intro l. unfold Rminus. apply exp_plus. }
   rewrite E. unfold norm_weights. cbn [fst]. split; [reflexivity|].
-  unfold mean. cbn [odiv oofnat Rops RopsP]. rewrite rseqsum_scale, !map_length. reflexivity.
+  unfold mean. cbn [odiv oofnat Rops RopsP]. rewrite rseqsum_scale, map_length. unfold expw. rewrite map_length. reflexivity.
 Qed.
 
 Lemma normal_proj_col (xs lws : list R) : length xs = length lws -> lws <> [] ->
